@@ -25,8 +25,8 @@ pub fn prop() -> Prop {
         id: "C11",
         level: "exploration",
         runs: |t| match t {
-            Tier::Quick => 800,
-            Tier::Thorough => 12000,
+            Tier::Quick => 6000,
+            Tier::Thorough => 70000,
         },
         generate,
         exec,
